@@ -94,6 +94,19 @@ def r_exc_breadth(e, R):
         R.check(bool(first) and all(any(_catch_all(h) for h in _handlers_of(hg, n)) for n in first), "R-EXC-BREADTH",
                 f"{hf.short}: the result put is enclosed by a BaseException handler", hf.short, "try: result_queue.put(...) except BaseException",
                 "a result that cannot be pickled/sent is not converted into an exception for its own future", e.loc(hf, hf.node))
+        # put() pickles the result before writing it: ANY exception class can come out of the user's __reduce__ / __getstate__
+        # (an OSError from a reducer doing I/O looks exactly like a broken pipe).  A narrower handler in front of the catch-all that
+        # re-raises, or does not report, lets such a result escape the worker loop: the worker dies, the pool breaks
+        for n in first:
+            for h in _handlers_of(hg, n):
+                if _catch_all(h):
+                    continue
+                reports = any(k.arg == "exception" for m in puts if hg.dominates(h, m) for c in calls_in(m) for x in ast.walk(c) if isinstance(x, ast.Call) for k in x.keywords)
+                reraises = any(isinstance(x, ast.Raise) for s_ in h.ast.body for x in ast.walk(s_))
+                R.check(reports and not reraises, "R-EXC-BREADTH", f"{hf.short}: every handler of the result put reports the failure for the task", hf.short,
+                        f"except {norm(h.ast.type)}: " + ("raise" if reraises else "<no report>"),
+                        f"the handler `except {norm(h.ast.type)}` in front of the catch-all lets a result whose pickling raises {norm(h.ast.type)} (a reducer doing I/O) "
+                        "escape the safe-send helper and the worker loop: the worker dies and every pending future gets TerminatedWorkerError", e.loc(hf, h.ast))
         for n in first:
             for h in _handlers_of(hg, n):
                 if not _catch_all(h):
